@@ -6,9 +6,9 @@ CONSTANTS
   OneHitEnc = TRUE
   ScoreNone = TRUE
   HeapTakeover = 10
-  MaxCalls = 2
+  MaxCalls = 3
   NTerms = 3
-  Family = "deep"
+  Family = "deepq2"
   DropK1 = FALSE
   Queries <- MCQueries
   FixEmptySnapshot = TRUE
